@@ -140,6 +140,7 @@ fn run_volumes(c: &VCase) -> Result<Outcome, Failure> {
 			return Err(Failure::panic("", p));
 		}
 		let mut i = 0;
+		let _ = crate::models::param::take_edge_hit();
 		while i < gap.frames {
 			let len = c.buf.min(gap.frames - i);
 			let dtc = DT * len as f64;
@@ -154,7 +155,7 @@ fn run_volumes(c: &VCase) -> Result<Outcome, Failure> {
 				// (the renderer clamps its output to [-1, 1])
 				let want = if live.is_some() { model.iter().map(|m| m.amp_at(a)).product::<f64>().min(1.0) } else { 0.0 };
 				let (l, r) = cb.frame(i + j, 2);
-				let tol = 1e-4 * want.max(1e-3);
+				let tol = 1e-4 * want.max(1e-3) + if crate::models::param::take_edge_hit() { 4e-3 } else { 0.0 };
 				// the sound's first frames pass through its resampler (silence before the first frame)
 				let starting = live.is_some() && since_creation < 4;
 				let ok = |x: f32| if starting { (x as f64) <= want + tol && x >= 0.0 } else { (x as f64 - want).abs() <= tol };
